@@ -64,17 +64,56 @@ func (conninView) Gen(r *Rng, i int) string {
 		data = data[:len(data)-1-r.Intn(3)] // the last request never completes
 	}
 	// cut into read events
-	var chunks []string
-	for len(data) > 0 {
-		n := 1 + r.Intn(len(data))
-		if r.Chance(1, 3) {
-			n = 1 + r.Intn(1+len(data)/4)
+	cut := func(data []byte, prefix string) []string {
+		var chunks []string
+		for len(data) > 0 {
+			n := 1 + r.Intn(len(data))
+			if r.Chance(1, 3) {
+				n = 1 + r.Intn(1+len(data)/4)
+			}
+			if n > 60000 {
+				n = 60000
+			}
+			chunks = append(chunks, prefix+hx(data[:n]))
+			data = data[n:]
 		}
-		if n > 60000 {
-			n = 60000
+		return chunks
+	}
+	chunks := cut(data, "")
+	if r.Chance(1, 3) {
+		// a second client on the same ring pool, its read events interleaved with the first one's; the first client
+		// may go away in the middle of a request: the ring that held its leftover goes back to the pool and is the
+		// next one handed out
+		var datab []byte
+		for k := 0; k < 1+r.Intn(4); k++ {
+			datab = append(datab, encodeCmd([][]byte{[]byte("set"), []byte("b" + strconv.Itoa(k)), r.Bytes(1 + r.Intn(200))})...)
 		}
-		chunks = append(chunks, hx(data[:n]))
-		data = data[n:]
+		datab = append(datab, []byte("*1\r\n$4\r\nping\r\n")...)
+		cb := cut(datab, "b:")
+		for len(cb) < 2 {
+			cb = append(cb, "b:"+hx([]byte("*1\r\n$4\r\nping\r\n")))
+		}
+		var mixed []string
+		closeAt := -1
+		if r.Chance(1, 2) && len(chunks) > 1 {
+			closeAt = 1 + r.Intn(len(chunks)-1)
+		}
+		i, j := 0, 0
+		for i < len(chunks) || j < len(cb) {
+			if closeAt >= 0 && i == closeAt {
+				mixed = append(mixed, "xa")
+				i = len(chunks)
+				continue
+			}
+			if i < len(chunks) && (j >= len(cb) || r.Bool()) {
+				mixed = append(mixed, chunks[i])
+				i++
+			} else {
+				mixed = append(mixed, cb[j])
+				j++
+			}
+		}
+		chunks = mixed
 	}
 	return fmt.Sprintf("connin %d | %s", limit, strings.Join(chunks, " ; "))
 }
@@ -93,38 +132,76 @@ func (conninView) Exec(line string) (string, string, []string) {
 		return "bad-op", "", nil
 	}
 	defer env.Close()
-	cl, err := env.AddClient("127.0.0.1")
-	if err != nil {
+	type ccl struct {
+		p      *simPeer
+		all    []byte
+		closed bool // the harness closed it
+	}
+	cls := map[string]*ccl{}
+	get := func(name string) *ccl {
+		if c, ok := cls[name]; ok {
+			return c
+		}
+		p, err := env.AddClient("127.0.0." + map[string]string{"a": "1", "b": "2"}[name])
+		if err != nil {
+			return nil
+		}
+		cls[name] = &ccl{p: p}
+		return cls[name]
+	}
+	if get("a") == nil {
 		return "bad-op", "", nil
 	}
 	tags := map[string]bool{"dom:C08": true, "dom:C19": true}
 	var outs, fails []string
-	var all []byte
 	for _, tok := range strings.Split(parts[1], ";") {
 		tok = strings.TrimSpace(tok)
 		if tok == "" {
 			continue
 		}
-		chunk, err := unhx(tok)
+		name := "a"
+		if strings.HasPrefix(tok, "b:") || tok == "xb" {
+			name = "b"
+			tags["two-clients"] = true
+		}
+		c := get(name)
+		if c == nil {
+			return "bad-op", "", nil
+		}
+		if tok == "xa" || tok == "xb" {
+			if !c.closed && c.p.vc.Opened() {
+				if c.p.vc.InboundBuffered() > 0 {
+					tags["closed-with-leftover"] = true
+				}
+				_ = env.PeerClose(c.p)
+			}
+			c.closed = true
+			replies, _ := parseReplies(c.p.recv)
+			outs = append(outs, fmt.Sprintf("n=%d left=0 open=0", len(replies)))
+			continue
+		}
+		chunk, err := unhx(strings.TrimPrefix(tok, "b:"))
 		if err != nil || len(chunk) == 0 || len(chunk) > 65536 {
 			return "bad-op", "", nil
 		}
-		all = append(all, chunk...)
-		if cl.vc.Opened() {
-			if err := env.Feed(cl, chunk); err != nil {
-				return "bad-op", "", nil
+		if !c.closed {
+			c.all = append(c.all, chunk...)
+			if c.p.vc.Opened() {
+				if err := env.Feed(c.p, chunk); err != nil {
+					return "bad-op", "", nil
+				}
 			}
 		}
 		env.drainAll()
-		cl.drain()
-		replies, rest := parseReplies(cl.recv)
-		open := cl.vc.Opened()
+		c.p.drain()
+		replies, rest := parseReplies(c.p.recv)
+		open := c.p.vc.Opened() && !c.closed
 		left := 0
 		if open {
-			left = cl.vc.InboundBuffered()
+			left = c.p.vc.InboundBuffered()
 		}
 		if len(rest) > 0 {
-			fails = append(fails, fmt.Sprintf("C08: the client received bytes that are not a reply: %q", clip(rest)))
+			fails = append(fails, fmt.Sprintf("C08: client %s received bytes that are not a reply: %q", name, clip(rest)))
 		}
 		if left > 0 {
 			tags["leftover"] = true
@@ -136,10 +213,13 @@ func (conninView) Exec(line string) (string, string, []string) {
 			tags["closed"] = true
 		}
 		outs = append(outs, fmt.Sprintf("n=%d left=%d open=%d", len(replies), left, b2i(open)))
+		if c.closed {
+			continue
+		}
 		// ---- oracle (independent of the model): the requests completely received so far, parsed strictly
 		want, consumed, bad := 0, 0, false
-		for consumed < len(all) {
-			_, n, perr := strictParse(all[consumed:])
+		for consumed < len(c.all) {
+			_, n, perr := strictParse(c.all[consumed:])
 			if perr != nil {
 				bad = perr == errProtocol
 				break
@@ -149,14 +229,14 @@ func (conninView) Exec(line string) (string, string, []string) {
 		}
 		if !bad && open {
 			if len(replies) != want {
-				fails = append(fails, fmt.Sprintf("C08: %d requests have arrived completely, %d replies were produced (segmentation: %d read events so far)", want, len(replies), len(outs)))
+				fails = append(fails, fmt.Sprintf("C08: %d requests of client %s have arrived completely, %d replies were produced (%d read events so far)", want, name, len(replies), len(outs)))
 			}
-			if left != len(all)-consumed {
-				fails = append(fails, fmt.Sprintf("C19: %d bytes of an incomplete request are outstanding, the inbound buffer holds %d", len(all)-consumed, left))
+			if left != len(c.all)-consumed {
+				fails = append(fails, fmt.Sprintf("C19: %d bytes of an incomplete request of client %s are outstanding, its inbound buffer holds %d", len(c.all)-consumed, name, left))
 			}
 		}
 		if !bad && !open {
-			fails = append(fails, "C08: the connection was closed although only well-formed requests (possibly incomplete) were sent")
+			fails = append(fails, fmt.Sprintf("C08: client %s was closed although it sent only well-formed requests (possibly incomplete)", name))
 		}
 	}
 	if len(outs) > 1 {
